@@ -141,6 +141,8 @@ struct State<'a> {
     chain: Vec<Gate>,
     once: BTreeSet<String>,
     out: Vec<Tok>,
+    /// text lines since the last directive of the current file, with line-break markers
+    segment: Vec<Tok>,
     walk: Vec<IncludeStep>,
     pasted: Vec<String>,
     steps: u64,
@@ -314,7 +316,26 @@ fn mask_comments(text: &str) -> (String, Option<u32>) {
     (String::from_utf8(out).unwrap_or_default(), unterminated)
 }
 
+const LINE_BREAK: Atom = Atom::Punct('\n');
+
+fn is_break(t: &Tok) -> bool {
+    t.atom == LINE_BREAK
+}
+
 impl State<'_> {
+    /// Macro replacement works on the text between two directives as one token sequence (an
+    /// invocation may span lines); line breaks are kept as markers because RSSL does not look
+    /// across one for the "(" of a function-like macro
+    fn flush_segment(&mut self) -> Result<(), Stop> {
+        let segment = std::mem::take(&mut self.segment);
+        if self.active() && segment.iter().any(|t| !is_break(t)) {
+            let mut out = Vec::new();
+            self.expand(&segment, &mut Vec::new(), &mut out)?;
+            self.out.extend(out.into_iter().filter(|t| !is_break(t)));
+        }
+        Ok(())
+    }
+
     fn active(&self) -> bool {
         self.chain
             .iter()
@@ -353,7 +374,25 @@ impl State<'_> {
         else {
             return Ok(false);
         };
-        if toks.get(*i).map(|t| &t.atom) != Some(&Atom::Punct('(')) || !self.is_function_like(last) {
+        if !self.is_function_like(last) {
+            return Ok(false);
+        }
+        if toks.get(*i).is_some_and(is_break) {
+            let mut j = *i;
+            while toks.get(j).is_some_and(is_break) {
+                j += 1;
+            }
+            if toks.get(j).map(|t| &t.atom) == Some(&Atom::Punct('('))
+                && last != just_expanded
+                && !disabled.contains(last)
+            {
+                return Err(Stop::Unmodelled(
+                    "line break between a function-like macro name and (".into(),
+                ));
+            }
+            return Ok(false);
+        }
+        if toks.get(*i).map(|t| &t.atom) != Some(&Atom::Punct('(')) {
             return Ok(false);
         }
         if last == just_expanded || disabled.contains(last) {
@@ -427,6 +466,16 @@ impl State<'_> {
                     }
                     Body::Function { params, body } => {
                         if toks.get(i + 1).map(|t| &t.atom) != Some(&Atom::Punct('(')) {
+                            // C looks across line breaks for the "(", RSSL does not
+                            let mut j = i + 1;
+                            while toks.get(j).is_some_and(is_break) {
+                                j += 1;
+                            }
+                            if j > i + 1 && toks.get(j).map(|t| &t.atom) == Some(&Atom::Punct('(')) {
+                                return Err(Stop::Unmodelled(
+                                    "line break between a function-like macro name and (".into(),
+                                ));
+                            }
                             out.push(t.clone());
                             i += 1;
                             continue;
@@ -451,15 +500,30 @@ impl State<'_> {
                                     args.last_mut().unwrap().push(toks[j].clone());
                                 }
                                 Atom::Punct(',') if depth == 0 => args.push(Vec::new()),
+                                // (a line break inside an argument is white space; the marker
+                                // travels with the argument so that the places where RSSL treats
+                                // it differently are still recognised after substitution)
                                 _ => args.last_mut().unwrap().push(toks[j].clone()),
                             }
                             j += 1;
                         }
                         if !closed {
-                            return Err(Stop::Unmodelled("macro arguments leave the line".into()));
+                            // the argument list never ends within this token sequence
+                            return Err(Stop::Fail(Failure {
+                                kind: FailKind::Macro,
+                                at: None,
+                                starts_at: None,
+                            }));
+                        }
+                        if params.is_empty() && toks[i + 2..j].iter().any(is_break) {
+                            // RSSL counts the line break as an argument of a macro without
+                            // parameters; C does not
+                            return Err(Stop::Unmodelled(
+                                "line break inside the parentheses of a macro without parameters".into(),
+                            ));
                         }
                         let arity_ok = if params.is_empty() {
-                            args.len() == 1 && args[0].is_empty()
+                            args.len() == 1 && args[0].iter().all(is_break)
                         } else {
                             args.len() == params.len()
                         };
@@ -503,6 +567,15 @@ impl State<'_> {
                     Body::Paste => {
                         // CAT ( x , y ) with single-atom operands that are not macro names
                         if toks.get(i + 1).map(|t| &t.atom) != Some(&Atom::Punct('(')) {
+                            let mut j = i + 1;
+                            while toks.get(j).is_some_and(is_break) {
+                                j += 1;
+                            }
+                            if j > i + 1 && toks.get(j).map(|t| &t.atom) == Some(&Atom::Punct('(')) {
+                                return Err(Stop::Unmodelled(
+                                    "line break between a function-like macro name and (".into(),
+                                ));
+                            }
                             out.push(t.clone());
                             i += 1;
                             continue;
@@ -652,6 +725,9 @@ impl State<'_> {
                 None => (text, "", false),
             };
             text = rest;
+            if unterminated == Some(line_no) || line.contains('\0') {
+                self.flush_segment()?;
+            }
             if unterminated == Some(line_no) {
                 // the lexer meets a comment that never ends: reported at the end-of-file position
                 // (text in front of the comment on the same line is outside the subset)
@@ -692,6 +768,9 @@ impl State<'_> {
             }
             let trimmed = line.trim_start_matches([' ', '\t']);
             let indent = (line.len() - trimmed.len()) as u32;
+            if trimmed.starts_with('#') {
+                self.flush_segment()?;
+            }
             if let Some(after_hash) = trimmed.strip_prefix('#') {
                 // the operand of #include is not made of atoms: only its name is tokenised
                 let name_part = after_hash.trim_start_matches([' ', '\t']);
@@ -730,14 +809,17 @@ impl State<'_> {
                 self.directive(&toks, after_hash, real, line_no, depth)?;
             } else {
                 let toks = lex_line(trimmed, real, line_no, indent + 1).map_err(Stop::Unmodelled)?;
-                if self.active() && !toks.is_empty() {
-                    let mut out = Vec::new();
-                    self.expand(&toks, &mut Vec::new(), &mut out)?;
-                    self.out.extend(out);
-                }
+                self.segment.extend(toks);
+                self.segment.push(Tok {
+                    atom: LINE_BREAK,
+                    file: real.to_string(),
+                    line: line_no,
+                    col: 0,
+                    text: String::new(),
+                });
             }
         }
-        Ok(())
+        self.flush_segment()
     }
 
     fn directive(
@@ -1027,6 +1109,7 @@ pub fn run(fs: &FsSpec, faults: &[Fault], entry: &str, defines: &[(String, Strin
         chain: Vec::new(),
         once: BTreeSet::new(),
         out: Vec::new(),
+        segment: Vec::new(),
         walk: Vec::new(),
         pasted: Vec::new(),
         steps: 0,
